@@ -193,21 +193,21 @@ theorem syncRow_align (c : Cls) (ha : isAlignCls c = true) :
 
 /-! ## the assembled translated code equals the Core model -/
 
-/-- the class invariant the suppliers rely on: a member of the affine family holds a square 3×3 / 4×4 matrix, and the
-target of an alignment is an affine image of its source -/
-def XfOK (x : Xf) : Prop := (x.cls ≠ .Homogeneous → Aff x.h) ∧ (isAlignCls x.cls = true → Resynced x)
+/-- what the suppliers rely on: a member of the affine family holds a square 3×3 / 4×4 matrix, and the target of an
+alignment has the shape of its source (NOT: equals the aligned source — freshly built alignments keep the caller's target) -/
+def XfOK (x : Xf) : Prop := (x.cls ≠ .Homogeneous → Aff x.h) ∧ (isAlignCls x.cls = true → Conforms x)
 
 theorem xfOK_of_wf (x : Xf) (hc : isXfCls x.cls = true) (hw : x.wf = true) : XfOK x := by
   obtain ⟨hwH, hal⟩ := xf_wf_parts x hw
-  refine ⟨fun hne => aff_of_wf _ (wfH_affine x.cls x.h hc hne hwH), fun ha => ⟨x.h, ?_⟩⟩
-  exact xf_wf_align x ha hw
+  refine ⟨fun hne => aff_of_wf _ (wfH_affine x.cls x.h hc hne hwH), fun ha => ?_⟩
+  exact conforms_of_image x x.h (xf_wf_align x ha hw)
 
-theorem sync_align (c : Cls) (ha : isAlignCls c = true) (y : Xf) (hres : Resynced y) :
+theorem sync_align (c : Cls) (ha : isAlignCls c = true) (y : Xf) (hres : Conforms y) :
     sync (syncRowIn Generated.syncDispatch c) y = syncTarget y := by
   rw [syncRow_align c ha]
   exact sync_eq y hres
 
-theorem setHm_eq (c : Cls) (hc : isXfCls c = true) (x : Xf) (m : Mat) (cp : Bool) (hres : isAlignCls c = true → Resynced x) :
+theorem setHm_eq (c : Cls) (hc : isXfCls c = true) (x : Xf) (m : Mat) (cp : Bool) (hres : isAlignCls c = true → Conforms x) :
     setHm (rowOf c) (syncRowIn Generated.syncDispatch c) x m cp true = setH (rowOf c) x m := by
   cases c <;> simp [isXfCls] at hc
   all_goals first
@@ -215,22 +215,20 @@ theorem setHm_eq (c : Cls) (hc : isXfCls c = true) (x : Xf) (m : Mat) (cp : Bool
     | exact Affine__set_h_matrix_eq x m cp
     | (show Src.AlignmentAffine__set_h_matrix _ x m cp true = syncTarget { x with h := m }
        refine AlignmentAffine__set_h_matrix_eq _ x m cp ?_
-       obtain ⟨h0, hh⟩ := hres rfl
-       exact sync_align _ rfl _ ⟨h0, hh⟩)
+       exact sync_align _ rfl _ (hres rfl))
 
 theorem setRotm_eq (c : Cls) (hc : c = .Rotation ∨ c = .AlignmentRotation) (x : Xf) (R : Mat)
-    (hres : isAlignCls c = true → Resynced x) :
+    (hres : isAlignCls c = true → Conforms x) :
     setRotm (rowOf c) (syncRowIn Generated.syncDispatch c) x R true = setRot (rowOf c) x R := by
   rcases hc with rfl | rfl
   · exact Rotation_set_rotation_matrix_eq x R
   · show Src.AlignmentRotation_set_rotation_matrix _ x R true = syncTarget { x with h := setRotBase x.h R }
     refine AlignmentRotation_set_rotation_matrix_eq _ x R ?_
-    obtain ⟨h0, hh⟩ := hres rfl
-    exact sync_align _ rfl _ ⟨h0, hh⟩
+    exact sync_align _ rfl _ (hres rfl)
 
-theorem resynced_of_eq (x y : Xf) (hs : y.src = x.src) (ht : y.tgt = x.tgt) (h : Resynced x) : Resynced y := by
-  obtain ⟨h0, hh⟩ := h
-  exact ⟨h0, by rw [hs, ht]; exact hh⟩
+theorem resynced_of_eq (x y : Xf) (hs : y.src = x.src) (ht : y.tgt = x.tgt) (h : Conforms x) : Conforms y := by
+  unfold Conforms at h ⊢
+  rw [hs, ht]; exact h
 
 theorem translationFvi_keeps (x y : Xf) (p : Vec) (h : translationFvi x p = .ok y) : y.src = x.src ∧ y.tgt = x.tgt := by
   unfold translationFvi at h
@@ -261,7 +259,7 @@ theorem xfFvi_src (x : Xf) (v : Vec) (hc : isXfCls x.cls = true) (hok : XfOK x) 
     xfFvi (rowOf x.cls) (syncRowIn Generated.syncDispatch x.cls) x v = x.fvi fixed v := by
   obtain ⟨haff, hres⟩ := hok
   obtain ⟨cls, h, s, t⟩ := x
-  have noal : ∀ c, isAlignCls c = false → ∀ y : Xf, isAlignCls c = true → Resynced y := by
+  have noal : ∀ c, isAlignCls c = false → ∀ y : Xf, isAlignCls c = true → Conforms y := by
     intro c hc y h; rw [hc] at h; cases h
   cases cls <;> simp [isXfCls] at hc
   · exact Homogeneous__from_vector_inplace_eq _ _ _ (fun m c => setHm_eq .Homogeneous rfl _ m c (noal _ rfl _)) _
@@ -519,6 +517,29 @@ theorem src_alignment_target_resynced (x x' : Xf) (v : Vec) (ha : isAlignCls x.c
   have hc := isXf_of_align x.cls ha
   rw [xfFromVec_src x v hc (xfOK_of_wf x hc hw)] at h
   exact alignment_target_resynced fixed x x' v ha hw h
+
+/-- PROPERTY (alignment transforms, translated code, NO assumption that the target was in sync before): for an alignment
+holding a 3×3 / 4×4 matrix whose target merely has the shape of its source — every alignment the constructors build, the
+target being whatever the caller passed — `from_vector(v)` as the current source text and class hierarchy compute it
+leaves `target = apply(source)` for the new matrix.  (Proviso of the code itself: a sub-`4 eps` quaternion is ignored.) -/
+theorem src_alignment_target_resynced_any (x x' : Xf) (v : Vec) (ha : isAlignCls x.cls = true) (haff : Aff x.h)
+    (hconf : Conforms x)
+    (hq : x.cls = .AlignmentRotation → ∀ w a b c : Rat, v = [w, a, b, c] → ¬ (w * w + a * a + b * b + c * c < eps4))
+    (h : xfFromVec Generated.dispatch Generated.syncDispatch x v = .ok x') :
+    applyAff x'.h x'.src = .ok x'.tgt ∧ x'.src = x.src ∧ x'.cls = x.cls := by
+  have hc := isXf_of_align x.cls ha
+  rw [xfFromVec_src x v hc ⟨fun _ => haff, fun _ => hconf⟩] at h
+  exact alignment_target_resynced_any fixed x x' v ha hq h
+
+/-- non-vacuity: an alignment whose target is not the aligned source (`wf` is false), as every freshly built one -/
+def exAlignFresh : Xf := ⟨.AlignmentSimilarity, [[2, -1, 5], [1, 2, 7], [0, 0, 1]], [[0, 0], [1, 0], [0, 1]],
+  [[7, -1], [4, 4], [0, 9]]⟩
+example : exAlignFresh.wf = false := by decide +kernel
+example : Conforms exAlignFresh := ⟨rfl, fun p hp => by cases hp; rfl⟩
+example : Aff exAlignFresh.h := Or.inl (by decide)
+example : xfFromVec Generated.dispatch Generated.syncDispatch exAlignFresh [1, 1, 0, 0] =
+    .ok ⟨.AlignmentSimilarity, [[2, -1, 0], [1, 2, 0], [0, 0, 1]], [[0, 0], [1, 0], [0, 1]],
+      [[0, 0], [2, 1], [-1, 2]]⟩ := by decide +kernel
 
 /-- … and the same after the deprecated in-place mutator -/
 theorem src_alignment_target_resynced_inplace (x x' : Xf) (v : Vec) (ha : isAlignCls x.cls = true) (hw : x.wf = true)
